@@ -598,7 +598,9 @@ def seed_table_failure(n):
 # ----------------------------------------------------------------------------------------------
 def dist_sweep(nmax=12, wmax=5):
     for n in range(1, nmax + 1):
-        for W in range(1, wmax + 1):
+        # world sizes far beyond the dataset size for tiny datasets: the padding branch `padding_size > len(indices)`
+        # (tiling of the global draw) only runs when the world is more than twice as large as the (repeated) dataset
+        for W in range(1, (14 if n <= 4 else wmax + 1)):
             for dl in (False, True):
                 for R in (1, 2, 3, 4):
                     for shuffle in ((True, False) if R == 1 else (True,)):
@@ -629,6 +631,8 @@ def gen_case(rng, kind, big=False):
     if kind == "dist":
         c = {"kind": "dist", "n": rng.randint(1, N), "W": W, "shuffle": True, "seed": seed, "dl": rng.random() < 0.5,
              "R": rng.choice([1, 2, 2, 3, 4])}
+        if rng.random() < 0.15:
+            c["n"], c["W"] = rng.randint(1, 5), rng.randint(6, 16)     # dataset much smaller than the world
         if c["R"] == 1:
             c["shuffle"] = rng.random() < 0.6
         if odd:
